@@ -128,19 +128,46 @@ def r2(ctx):
         ok = {o.data[1] for o in recv if o.kind == "arg"} == {"other"} and all(o.kind == "arg" for o in recv)
         ctx.check(ok, "C13.R2", h.path, "lookup-in-other", "theirs = other.get(author): receiver %s" % [origin_summary(o) for o in recv], g[0]["sp"])
 
-    # has_news_for_us: receiver = peer heads argument, argument = locally computed heads
+    # has_news_for_us evaluated (K6' with abstract collections): the peer's heads are asked whether they have news for
+    # the heads computed from this namespace's latest-per-author rows (all of them)
+    from . import coll
     u = f.body("store::fs::Store::has_news_for_us")
-    ctx.touch(u)
-    bi, t = one_call(u, r"heads::AuthorHeads::has_news_for$")
-    recv = {origin_summary(o) for o in trace(u, t["a"][0])}
-    arg = trace(u, t["a"][1])
-    ctx.check(recv == {"arg:heads"}, "C13.R2", u.path, "receiver-is-peer-heads", "receiver %s" % recv, t["sp"])
-    local = all(o.kind == "call" and o.data["f"].get("name") == "default" for o in arg) and bool(arg)
-    ctx.check(local, "C13.R2", u.path, "argument-is-local-heads", "argument origins %s" % [origin_summary(o) for o in arg], t["sp"])
-    ins = [t2 for _, t2 in u.calls() if callee_matches(t2, r"heads::AuthorHeads::insert$")]
-    gl = [t2 for _, t2 in u.calls() if callee_matches(t2, r"get_latest_for_each_author$")]
-    ok = len(ins) == 1 and len(gl) == 1 and {o.data[1] for o in trace(u, gl[0]["a"][1]) if o.kind == "arg"} == {"namespace"}
-    ctx.check(ok, "C13.R2", u.path, "local-heads-from-this-namespace", "local heads are filled from get_latest_for_each_author(namespace)", u.sp)
+    ctx.touch(*f.scope(u.path, prefix="store::fs::"))
+    for rows_, label in (((("alice", 5), ("bob", 9), ("carol", 2)), "three-authors"), ((), "no-entries"), ((("alice", 5), "err", ("carol", 2)), "storage-error")):
+        log = []
+        C = coll.Collections(f)
+
+        def oracle(kind, name, payload, site, rows_=rows_):
+            if kind != "call":
+                return None
+            t, args, it = payload
+            names = [it.tokname(x) for x in args]
+            if name == "get_latest_for_each_author":
+                log.append(("latest-of", names[1:]))
+                items = [E.Err(E.Tok("storage-error")) if r == "err" else E.Ok(("tuple", [E.Tok(r[0]), E.Tok("ts%d" % r[1]), E.Tok("key")])) for r in rows_]
+                return E.Ok(coll.seq("iter", items))
+            if callee_matches(t, r"heads::AuthorHeads::insert$"):
+                log.append(("insert", names))
+                return E.UNIT
+            if callee_matches(t, r"heads::AuthorHeads::has_news_for$"):
+                log.append(("has_news_for", names))
+                return E.Tok("verdict")
+            if name == "default" and not args and "AuthorHeads" in (t["f"].get("full") or "") + (t["f"].get("path") or "") + (t["f"].get("res") or ""):
+                return E.Tok("local-heads")
+            return C.handle(kind, name, payload, site)
+        try:
+            ret, it_ = E.run_it(f, u.path, [E.href("self"), E.Tok("namespace"), E.href("heads")], {"self": E.Tok("store"), "heads": E.Tok("peer-heads")}, oracle)
+            got = E.describe(ret, f)
+        except E.Unsupported as ex:
+            got = "UNSUPPORTED-FORM: %s" % ex
+        if label == "storage-error":
+            ok = got.startswith("Err") and not any(x[0] == "has_news_for" for x in log)
+            spec = "a storage error is reported, no verdict from partial heads"
+        else:
+            want = [("latest-of", ["namespace"])] + [("insert", ["local-heads", r[0], "ts%d" % r[1]]) for r in rows_] + [("has_news_for", ["peer-heads", "local-heads"])]
+            ok = got == "Ok(verdict)" and log == want
+            spec = "peer_heads.has_news_for(heads built from every latest-per-author row of this namespace)"
+        ctx.check(ok, "C13.R2", u.path, "news-for-us[%s]" % label, "returns %s; effects %s; spec: %s" % (got, log, spec), u.sp)
     # AuthorHeads::insert keeps the maximum: evaluated (K6') on {author unknown, known with cmp(new, stored) in Less/Equal/Greater};
     # the map's entry API (combinator and match forms) and its direct API are modelled for the one key
     i = f.body("heads::AuthorHeads::insert")
@@ -214,7 +241,7 @@ def r2(ctx):
     okm = rows.get("unknown") == "timestamp" and rows.get("Less") == "stored" and rows.get("Greater") == "timestamp" and rows.get("Equal") in ("stored", "timestamp")
     ctx.check(okm, "C13.R2", i.path, "insert-keeps-maximum",
               "head stored for the author after insert(author, timestamp), by (author known?, cmp(timestamp, stored)): %s; spec: the new timestamp for an unknown author, otherwise the maximum" % rows, i.sp)
-    ctx.floor("C13.R2", 8)
+    ctx.floor("C13.R2", 7)
 
 
 def eval_encode_heads(f, heads, limit):
@@ -304,8 +331,29 @@ def r4(ctx):
     C16.r1(ctx, rule="C13.R4", only={LPA})
 
 
+def r5(ctx):
+    """the heads rebuilt by migration 001 are the greatest timestamps (shared with C18.R2)"""
+    from . import C18
+    sub = type(ctx)(ctx.prop, ctx.tier, ctx.facts, ctx.cfg)
+    C18.r2(sub)
+    n = 0
+    for o in sub.obligations:
+        if "heads-rebuilt" not in o["key"] and "entry_put[" not in o["key"]:
+            continue
+        o = dict(o)
+        o["key"] = o["key"].replace("C18.R2", "C13.R5")
+        o["rule"] = "C13.R5"
+        ctx.obligations.append(o)
+        n += 1
+        if o["status"] != "holds":
+            ctx.violations.append(o)
+    ctx.analysed_bodies |= sub.analysed_bodies
+    ctx.floor("C13.R5", 5)
+
+
 def run(ctx):
     ctx.run_rule("C13.R1", r1)
     ctx.run_rule("C13.R2", r2)
     ctx.run_rule("C13.R3", r3)
     ctx.run_rule("C13.R4", r4)
+    ctx.run_rule("C13.R5", r5)
